@@ -10,7 +10,7 @@ PROP = {
             "Locate_Closest_Location on every non-decreasing list over {0..4} of length 1..8 x 15 half-integer targets (below, above, on elements, ties) plus random lists to length 64; "
             "Linear_Space/Log_Space with 0..2000 steps in either orientation; list templates on int, double, std::string incl. empty lists and every Sub_List index pair from -2 to size+2; "
             "summary statistics on data sets of length 1..200",
-    "floors": {"quick": {"cases": 20000, "distinct_nontrivial": 10000,
+    "floors": {"quick": {"cases": 96000, "distinct_nontrivial": 100000,
                          "clauses": {"workload-distribution-partition": 131200, "range-enumerates-half-open-integer-range": 262440, "closest-location-is-a-nearest-element": 100000,
                                      "linear-space-equally-spaced": 5000, "log-space-equally-spaced-in-the-logarithm": 5000, "sub-list-definition": 100000,
                                      "variance-vs-reference-(n-1)": 5000, "equal-weights-give-standard-error-s-over-sqrtN": 4000, "median-definition": 6000}},
